@@ -150,9 +150,13 @@ func buildWorld(c *xs.Ctx, length int, depths []int, small bool) *world {
 	// extension on top of local
 	ops.Apply(p, ops.Op{K: "T", A: 1, B: 2, V: 7})
 	ops.Apply(p, ops.Op{K: "Call", S: "stake", A: 3, V: 10})
+	ops.Apply(p, ops.Op{K: "Call", S: "refund", A: 5})
 	ops.Apply(p, M)
 	ops.Apply(p, ops.Op{K: "R", A: 2})
-	ops.Apply(p, M) // contains the contract receive of the stake call
+	ops.Apply(p, M) // contains the contract receives of the stake calls, the second (sentinel Register without deposit) with a batched refund block
+	if firstContractSend(p.Detailed(p.Height())) < 0 {
+		panic("harness: the extension has no batched contract-send block")
+	}
 	ops.Apply(p, ops.Op{K: "T", A: 2, B: 0, V: 1})
 	ops.Apply(p, M)
 	w.ext = p.Range(L+1, p.Height())
@@ -327,6 +331,39 @@ var invalidKinds = []invalidKind{
 		d.Momentum.Content = d.Momentum.Content[1:]
 		resign(d.Momentum, k)
 	}},
+	// an account block nobody verified: a contract-send-type block (the type the per-block verification of a delivered
+	// momentum skips because honest ones are covered by their contract receive) that no contract receive produced,
+	// listed in the content and shipped with the momentum, correctly sealed by the elected producer
+	{"extra-invented-contract-send", nil, func(d *nom.DetailedMomentum) {
+		k := keyOf(d.Momentum.Producer())
+		b := &nom.AccountBlock{Version: 1, ChainIdentifier: d.Momentum.ChainIdentifier, BlockType: nom.BlockTypeContractSend,
+			Height: 1000, MomentumAcknowledged: d.Momentum.Previous(), Address: types.TokenContract, ToAddress: g.User3.Address,
+			Amount: ops.Big(1000000 * g.Zexp), TokenStandard: types.ZnnTokenStandard}
+		b.Hash = b.ComputeHash()
+		extraHeader(d, b)
+		resign(d.Momentum, k)
+	}},
+	// the same, for a batched block that an earlier part of the same momentum already confirmed
+	{"extra-repeated-batched-block", func(d *nom.DetailedMomentum) bool { return firstContractSend(d) >= 0 }, func(d *nom.DetailedMomentum) {
+		k := keyOf(d.Momentum.Producer())
+		extraHeader(d, d.AccountBlocks[firstContractSend(d)])
+		resign(d.Momentum, k)
+	}},
+}
+
+func extraHeader(d *nom.DetailedMomentum, b *nom.AccountBlock) {
+	content := append(nom.MomentumContent{}, d.Momentum.Content...)
+	h := b.Header()
+	d.Momentum.Content = append(content, &h)
+	d.AccountBlocks = append(append([]*nom.AccountBlock{}, d.AccountBlocks...), b)
+}
+func firstContractSend(d *nom.DetailedMomentum) int {
+	for i, b := range d.AccountBlocks {
+		if b.BlockType == nom.BlockTypeContractSend {
+			return i
+		}
+	}
+	return -1
 }
 
 func firstUser(d *nom.DetailedMomentum) int {
